@@ -16,6 +16,19 @@ def main(path):
         print(text)
         print("REPRODUCED" if bad else "not reproduced")
         return 1 if bad else 0
+    if case.get("replay"):
+        import importlib
+        r = case["replay"]
+        mod = importlib.import_module(r["module"])
+        args = r["args"]
+        def tup(x):
+            return tuple(tup(i) for i in x) if isinstance(x, list) else x
+        res = getattr(mod, r["func"])(tup(args) if r.get("tuple", True) else args)
+        found = res.get("msgs") or res.get("problems") or res.get("viol") or res.get("violations") or []
+        for f in found:
+            print("  ", f)
+        print("REPRODUCED" if found else "not reproduced")
+        return 1 if found else 0
     if os.path.exists(os.path.join(path, "run.sh")):
         import subprocess
         rc = subprocess.call(["sh", os.path.join(path, "run.sh"), flex.exe, flex.incdir])
